@@ -167,6 +167,13 @@ def h_empty(ctx, nhash_hi):
     ctx.check(len(f.vData) == 0, 'empty data: insert does not fail')
     ctx.check(f.contains(e), 'empty data: contains is true')
     ctx.check(f.contains(ctx.bytes('q', 1)), 'empty data: contains is true')
+    # outpoints take their own route into insert / contains
+    C = ctx.core
+    op = C.COutPoint(ctx.bytes('op_hash', 32), ctx.int('op_n', 0, 0xffffffff))
+    ctx.check(f.contains(op), 'empty data: contains is true', detail='outpoint query')
+    f.insert(op)
+    ctx.check(len(f.vData) == 0, 'empty data: insert does not fail', detail='outpoint insert')
+    ctx.check(f.contains(C.CMutableOutPoint(ctx.bytes('op2_hash', 32), 1)), 'empty data: contains is true', detail='mutable outpoint query')
 
 
 class _Shim(object):
